@@ -402,14 +402,22 @@ func c02GridAt(typ byte, ax []c02Axis, idx int) c02Fields { // only used with id
 
 // c02OFAT: one-factor-at-a-time subset (base point = all axes at index 0, then each axis varied alone): every
 // field value occurs; these envelopes get the full single-edit mutation treatment.
-func c02OFAT(typ byte, ax []c02Axis) []c02Fields {
-	base := func() c02Fields { return c02GridAt(typ, ax, 0) }
+func c02OFAT(typ byte, ax []c02Axis, baseIdx int) []c02Fields {
+	base := func() c02Fields {
+		v := make([]int, len(ax))
+		for k := range v {
+			v[k] = baseIdx
+		}
+		return c02FromVec(typ, ax, v)
+	}
 	out := []c02Fields{base()}
 	for _, a := range ax {
-		for i := 1; i < a.n; i++ {
-			f := base()
-			a.set(&f, i)
-			out = append(out, f)
+		for i := 0; i < a.n; i++ {
+			if i != baseIdx {
+				f := base()
+				a.set(&f, i)
+				out = append(out, f)
+			}
 		}
 	}
 	return out
@@ -824,12 +832,12 @@ type c02Case struct {
 
 func TestVerif_C02(t *testing.T) {
 	mc.Run(t, "C02", func(r *mc.R) {
-		r.Rule("per tx type (legacy, 2930, 1559, 4844, 7702): (grid) the FULL Cartesian product of the field-value axes where it has <=60000 points (legacy, 2930), " +
-			"otherwise (1559, 4844, 7702) a pairwise-complete set (every pair of axes x every pair of values around two base points); each envelope built by a " +
+		r.Rule("per tx type (legacy, 2930, 1559, 4844, 7702): (grid) the FULL Cartesian product of the field-value axes where it has <=60000 (thorough: 200000) points (legacy, 2930; thorough also 1559), " +
+			"otherwise (4844, 7702, quick: 1559) a pairwise-complete set (every pair of axes x every pair of values around two base points); each envelope built by a " +
 			"reference encoder from the EIP definitions, decoded by UnmarshalBinary and as an RLP list element, compared field by field, re-marshalled, " +
 			"hashed (x/crypto keccak over the sidecar-free bytes), sized, rebuilt with NewTx, JSON round-tripped when the signature values are admissible; " +
 			"(mut) every single-edit mutation (delete / truncate / +-1 / overwrite+insert with 15 RLP tag bytes / append) of every byte of each " +
-			"one-factor-at-a-time envelope, both as binary envelope and as encoding of a one-element transaction list; one-blob sidecar envelopes " +
+			"one-factor-at-a-time envelope (around the base point; thorough: around two base points), both as binary envelope and as encoding of a one-element transaction list; one-blob sidecar envelopes " +
 			"(131 kB) are mutated at all bytes outside the blob body with a 4-byte alphabet; (fixed) hand-made non-canonical wrappers. " +
 			"distinct = distinct accepted envelopes (by hash of bytes)")
 		r.Assume("oracle for accepted inputs is the property's implication: MarshalBinary()==input, Hash()==keccak(input without sidecar), Size()==len(input); keccak from golang.org/x/crypto, RLP header parser and envelope builder written from the EIPs")
@@ -847,7 +855,7 @@ func TestVerif_C02(t *testing.T) {
 		gridSizes := map[string]any{}
 		for _, typ := range types {
 			ax := c02Axes(typ)
-			vecs, full := c02Points(ax, 60000)
+			vecs, full := c02Points(ax, mc.Pick(r, 60000, 200000))
 			gridSizes[fmt.Sprintf("type%d", typ)] = map[string]any{"points": len(vecs), "full_product": full}
 			const chunk = 256
 			for lo := 0; lo < len(vecs); lo += chunk {
@@ -888,7 +896,10 @@ func TestVerif_C02(t *testing.T) {
 		ofatCount := map[string]int{}
 		for _, typ := range types {
 			ax := c02Axes(typ)
-			fs := c02OFAT(typ, ax)
+			fs := c02OFAT(typ, ax, 0)
+			if r.Thorough() {
+				fs = append(fs, c02OFAT(typ, ax, 1)...) // second base point: every axis at its value #1
+			}
 			if typ == BlobTxType {
 				for _, sc := range []int{3, 4} {
 					f := c02GridAt(typ, ax, 0)
